@@ -37,12 +37,93 @@ RULE = ("serial_conducted / thread_random: queue 1..6 x pop {1,2} x workers 1..3
         "(serial: forced by a conductor; thread: random sleeps); non-trivial = more jobs than free resource groups or than workers. "
         "serial_steps / thread_steps: queue 1..6 x pop 1..3 (also not dividing the queue) x workers 1..3 x 2..9 operations among submit k / "
         "return / raise / close(), every run-function released by the driver; all pops from -1 to len(queue)+2 for the constructor; "
-        "non-trivial = contention, a failure or a close()")
+        "non-trivial = contention, a failure or a close(). In every stream about 40% of the cases use a queue given by values (qspec): "
+        "equal entries (slots of a device), names, tuples, unhashable lists, 1 vs 1.0; judged as multisets on one token per class of equal values")
 CLAUSE = {1: "wrong_resource_count", 2: "resource_not_free", 3: "start_end_order", 4: "metadata", 5: "job_never_ran", 6: "resource_lost"}
 F_REPLAY = 1701
 F_XREPLAY = 1702
 F_MECHQ = 1703
 F_CONSERVED = 1704
+
+
+# ---------------------------------------------------------------------------------------------------------------------
+# the resources.  Default: len(queue) pairwise distinct integers.  case["qspec"] = [[kind, value], ...] gives the values the
+# evaluator really receives: multi-slot devices (the same value once per slot: [0, 0, 1, 1]), names, tuples, unhashable lists,
+# numbers that are equal without being identical (1 and 1.0).  The model and the oracle work on tokens: one token per
+# class of EQUAL values, so every judgement is about multisets (free + in use = initial collection, counted with
+# multiplicity; a job may hold a value as often as it has free slots) and never about the identity of an object.
+# ---------------------------------------------------------------------------------------------------------------------
+def _decode(v):
+    k, x = v
+    if k == "t":
+        return tuple(x)
+    if k == "l":
+        return list(x)
+    return {"i": int, "f": float, "s": str}[k](x)
+
+
+class Res:
+    def __init__(self, case):
+        spec = case.get("qspec")
+        self.vals = [_decode(v) for v in spec] if spec else list(range(100, 100 + case["queue"]))
+        self.toks = []
+        for i, v in enumerate(self.vals):
+            t = next((self.toks[k] for k in range(i) if type(self.vals[k]) in (int, float) and type(v) in (int, float) and self.vals[k] == v
+                      or type(self.vals[k]) is type(v) and self.vals[k] == v), None)
+            self.toks.append(100 + i if t is None else t)
+        self.kind = "distinct" if not spec else ("repeated" if len(set(self.toks)) < len(self.toks) else "distinct_objects")
+
+    def fresh(self):
+        """The list handed to the evaluator (unhashable members are copied: equal, not identical)."""
+        return [list(v) if isinstance(v, list) else v for v in self.vals]
+
+    def tok(self, x):
+        for v, t in zip(self.vals, self.toks):
+            if (type(v) is type(x) or (type(v) in (int, float) and type(x) in (int, float))) and v == x:
+                return t
+        return -1
+
+    def toklist(self, xs):
+        return [self.tok(x) for x in xs]
+
+    def parse_meta(self, text):
+        """'dequed' metadata -> tokens: the text must be the str() of known resources joined by commas (a resource's own
+        text may contain commas); anything else is the unknown token -1."""
+        reprs = [(str(v), t) for v, t in zip(self.vals, self.toks)]
+
+        def go(rest):
+            if rest == "":
+                return []
+            for r, t in reprs:
+                if rest == r:
+                    return [t]
+                if rest.startswith(r + ","):
+                    tail = go(rest[len(r) + 1:])
+                    if tail is not None:
+                        return [t] + tail
+            return None
+
+        out = go(text)
+        return [-1] if out is None else out
+
+    def desc(self):
+        return "resources=" + self.kind
+
+
+def _qspec(rng, n):
+    """n resources, some of them equal: slots of a device, node names, tuples, lists, 1 vs 1.0."""
+    fam = rng.choice(["slots", "slots", "names", "tuples", "lists", "numeq"])
+    alpha = rng.randint(1, n)
+    idx = sorted(rng.randrange(alpha) for _ in range(n)) if rng.random() < 0.6 else [rng.randrange(alpha) for _ in range(n)]
+    if fam == "slots":
+        return [["i", k] for k in idx]
+    if fam == "names":
+        return [["s", "gpu%d" % k] for k in idx]
+    if fam == "tuples":
+        return [["t", ["node", k]] for k in idx]
+    if fam == "lists":
+        return [["l", [k]] for k in idx]
+    return [["f" if i % 2 else "i", k + 1] for i, k in enumerate(idx)]
 
 
 def _ids(jobs):
@@ -58,7 +139,7 @@ def run_case(case):
 
     async def run_async(job, dequed=None):
         jid = int(job.id.split(".")[1])
-        log.append([0, jid, [int(x) for x in dequed]])
+        log.append([0, jid, R.toklist(dequed)])
         ev = events.setdefault(jid, asyncio.Event())
         await ev.wait()
         log.append([1, jid])
@@ -67,17 +148,18 @@ def run_case(case):
     def run_sync(job, dequed=None):
         jid = int(job.id.split(".")[1])
         with lock:
-            log.append([0, jid, [int(x) for x in dequed]])
+            log.append([0, jid, R.toklist(dequed)])
         time.sleep(case["durs"][jid % len(case["durs"])] / 1000.0)
         with lock:
             log.append([1, jid])
         return jid
 
-    q0 = list(range(100, 100 + case["queue"]))
+    R = Res(case)
+    q0 = list(R.toks)
     if backend == "serial":
-        ev = queued(SerialEvaluator)(run_async, num_workers=case["workers"], queue=q0, queue_pop_per_task=case["pop"])
+        ev = queued(SerialEvaluator)(run_async, num_workers=case["workers"], queue=R.fresh(), queue_pop_per_task=case["pop"])
     else:
-        ev = queued(ThreadPoolEvaluator)(run_sync, num_workers=case["workers"], queue=q0, queue_pop_per_task=case["pop"])
+        ev = queued(ThreadPoolEvaluator)(run_sync, num_workers=case["workers"], queue=R.fresh(), queue_pop_per_task=case["pop"])
     meta, njobs, error, fq = [], 0, None, None
     conductors = []
     try:
@@ -103,8 +185,8 @@ def run_case(case):
             res = ev.gather("ALL") if (last or not batch) else ev.gather("BATCH", size=batch)
             for job in res:
                 d = job.metadata.get("dequed", "")
-                meta.append([int(job.id.split(".")[1]), [int(x) for x in d.split(",") if x != ""]])
-        fq = [int(x) for x in ev.queue]
+                meta.append([int(job.id.split(".")[1]), R.parse_meta(d)])
+        fq = R.toklist(ev.queue)
     except Exception as e:
         error = "%s: %s" % (type(e).__name__, e)
     finally:
@@ -126,7 +208,7 @@ def check(case):
     nt = njobs > groups or njobs > case["workers"]
     res = dict(ok=True, kind="oracle", clause="", nontrivial=nt, sig={"backend": case.get("backend", "serial")},
                desc=["queue=%d" % case["queue"], "pop=%d" % case["pop"], "workers=%d" % case["workers"], "jobs=%d" % njobs,
-                     "waves=%d" % len(case["waves"]), "contended" if nt else "uncontended"])
+                     "waves=%d" % len(case["waves"]), "contended" if nt else "uncontended", Res(case).desc()])
     if error is not None:
         kind = error.split(":")[0]
         res["sig"]["exc"] = kind
@@ -152,6 +234,12 @@ def gen(count, backend):
         if backend == "serial":
             yield dict(queue=2, pop=1, workers=1, waves=[[3, [0, 1, 2], 0]], pause=2)
             yield dict(queue=4, pop=1, workers=2, waves=[[4, [1, 0, 3, 2], 0]], pause=2)
+            # two slots per device: every entry must come back, also when an equal entry is free at that moment
+            yield dict(queue=4, qspec=[["i", 0], ["i", 0], ["i", 1], ["i", 1]], pop=1, workers=3, waves=[[4, [0, 1, 2, 3], 0], [4, [3, 2, 1, 0], 0]], pause=2)
+            yield dict(queue=3, qspec=[["i", 1], ["f", 1.0], ["i", 2]], pop=2, workers=2, waves=[[3, [1, 0, 2], 0]], pause=2)
+        else:
+            yield dict(backend=backend, durs=[3, 6, 1, 12], queue=4, qspec=[["s", "gpu0"], ["s", "gpu0"], ["s", "gpu1"], ["s", "gpu1"]], pop=1, workers=3,
+                       waves=[[4, [], 0], [4, [], 0]], pause=0)
         n = count * (3 if tier == "search" else 1)
         for _ in range(n):
             pop = rng.choice([1, 1, 2])
@@ -165,6 +253,8 @@ def gen(count, backend):
                 if total >= 8:
                     break
             c = dict(queue=queue, pop=pop, workers=rng.randint(1, 3), waves=waves, pause=rng.choice([0, 1, 2, 4]))
+            if rng.random() < 0.4:
+                c["qspec"] = _qspec(rng, queue)
             if backend != "serial":
                 c.update(backend=backend, durs=[rng.choice([1, 3, 6, 12, 25]) for _ in range(8)])
             yield c
@@ -181,11 +271,26 @@ def shrink(case):
         if ws[i][1]:
             yield dict(case, waves=ws[:i] + [[ws[i][0], ws[i][1][:-1], ws[i][2]]] + ws[i + 1:])
     if case["queue"] > case["pop"]:
-        yield dict(case, queue=case["queue"] - 1)
+        yield _smaller_queue(case)
     if case["workers"] > 1:
         yield dict(case, workers=case["workers"] - 1)
     if case["pop"] > 1:
         yield dict(case, pop=1)
+    yield from _simpler_resources(case)
+
+
+def _smaller_queue(case):
+    c = dict(case, queue=case["queue"] - 1)
+    if "qspec" in case:
+        c["qspec"] = case["qspec"][:-1]
+    return c
+
+
+def _simpler_resources(case):
+    if "qspec" in case:
+        yield {k: v for k, v in case.items() if k != "qspec"}  # pairwise distinct integers
+        toks = Res(case).toks
+        yield dict(case, qspec=[["i", t - 100] for t in toks])  # same pattern of equal values, plain integers
 
 
 # ---------------------------------------------------------------------------------------------------------------------
@@ -208,15 +313,16 @@ class Stepper:
 
         self.case = case
         self.thread = case["backend"] == "thread"
-        self.q0 = list(range(100, 100 + case["queue"]))
+        self.R = Res(case)
+        self.q0 = list(self.R.toks)
         self.log, self.events, self.fail, self.tasks = [], {}, set(), {}
         self.cv = threading.Condition()
         self.njobs = 0
         self.ops = []  # concrete operations, as given to the model
         if self.thread:
-            self.ev = queued(ThreadPoolEvaluator)(self.run_sync, num_workers=case["workers"], queue=self.q0, queue_pop_per_task=case["pop"])
+            self.ev = queued(ThreadPoolEvaluator)(self.run_sync, num_workers=case["workers"], queue=self.R.fresh(), queue_pop_per_task=case["pop"])
         else:
-            self.ev = queued(SerialEvaluator)(self.run_async, num_workers=case["workers"], queue=self.q0, queue_pop_per_task=case["pop"])
+            self.ev = queued(SerialEvaluator)(self.run_async, num_workers=case["workers"], queue=self.R.fresh(), queue_pop_per_task=case["pop"])
         if case.get("timeout"):
             # an evaluator-wide time budget that is over at once: every job is marked CANCELLED when it reaches the deadline,
             # but its run-function is awaited all the same - the resources must stay with the job until it really ends
@@ -225,7 +331,7 @@ class Stepper:
     # ---- run-functions -------------------------------------------------------------------------------------------
     async def run_async(self, job, dequed=None):
         jid = int(job.id.split(".")[1])
-        self.log.append([0, jid, [int(x) for x in dequed]])
+        self.log.append([0, jid, self.R.toklist(dequed)])
         e = self.events.setdefault(jid, asyncio.Event())
         try:
             await e.wait()
@@ -238,7 +344,7 @@ class Stepper:
     def run_sync(self, job, dequed=None):
         jid = int(job.id.split(".")[1])
         with self.cv:
-            self.log.append([0, jid, [int(x) for x in dequed]])
+            self.log.append([0, jid, self.R.toklist(dequed)])
             e = self.events.setdefault(jid, threading.Event())
             self.cv.notify_all()
         try:
@@ -279,7 +385,7 @@ class Stepper:
             else:
                 ph = "failed" if t.exception() is not None else "done"
             jobs.append([ph, st.get(j)])
-        return dict(deque=[int(x) for x in self.ev.queue], jobs=jobs)
+        return dict(deque=self.R.toklist(self.ev.queue), jobs=jobs)
 
     # ---- letting the event loop (and the threads) do what they can -------------------------------------------------
     def ticks(self, n=60):
@@ -452,8 +558,8 @@ def steps_check(case):
         meta = []
         for job in st.ev.jobs:
             if "dequed" in job.metadata:
-                meta.append([int(job.id.split(".")[1]), [int(x) for x in job.metadata["dequed"].split(",") if x != ""]])
-        fq = [int(x) for x in st.ev.queue]
+                meta.append([int(job.id.split(".")[1]), st.R.parse_meta(job.metadata["dequed"])])
+        fq = st.R.toklist(st.ev.queue)
         log, ops, njobs = list(st.log), list(st.ops), st.njobs
     except Exception as e:  # noqa: BLE001
         kind = type(e).__name__
@@ -465,7 +571,7 @@ def steps_check(case):
     kinds = sorted({o[0] for o in c["ops"]})
     res["nontrivial"] = njobs > min(c["queue"] // c["pop"], c["workers"]) or "close" in kinds or "fail" in kinds
     res["desc"] = ["queue=%d" % c["queue"], "pop=%d" % c["pop"], "workers=%d" % c["workers"], "jobs=%d" % min(njobs, 9),
-                   "divides=%s" % (c["queue"] % c["pop"] == 0)] + ["op=" + k for k in kinds] + \
+                   "divides=%s" % (c["queue"] % c["pop"] == 0), st.R.desc()] + ["op=" + k for k in kinds] + \
                   ["waves=%d" % min(3, sum(1 for o in c["ops"] if o[0] == "submit"))] + (["timeout_set"] if c.get("timeout") else []) + (["pool_start"] if any(o[0] == OP_START for o in ops) else [])
     sig = dict(sig, after_close=after_close)
     if isinstance(bad, str):
@@ -499,12 +605,18 @@ def steps_gen(count, backend):
             yield dict(backend=backend, queue=2, pop=1, workers=1, ops=[["submit", 1], ["submit", 1]])  # F21: two jobs run with one worker
             yield dict(backend=backend, queue=2, pop=1, workers=1, timeout=True, ops=[["submit", 3], ["finish", 0], ["fail", 0]])  # deadline passed while holding
             yield dict(backend=backend, queue=6, pop=2, workers=1, ops=[["submit", 3], ["close", 0], ["submit", 3]])  # order in which close() returns
+            # multi-slot devices and equal-but-not-identical resources
+            yield dict(backend=backend, queue=4, qspec=[["i", 0], ["i", 0], ["i", 1], ["i", 1]], pop=1, workers=4,
+                       ops=[["submit", 4], ["finish", 0], ["finish", 0], ["finish", 0], ["finish", 0], ["submit", 4]])
+            yield dict(backend=backend, queue=3, qspec=[["i", 0], ["i", 0], ["i", 0]], pop=1, workers=1, ops=[["submit", 2], ["finish", 0], ["fail", 0], ["submit", 3]])
+            yield dict(backend=backend, queue=3, qspec=[["l", [1]], ["l", [1]], ["t", ["n", 2]]], pop=1, workers=2, ops=[["submit", 3], ["finish", 1], ["close", 0], ["submit", 2]])
         else:
             yield dict(backend=backend, queue=1, pop=1, workers=2, ops=[["submit", 1], ["close", 0], ["submit", 1]])  # zombie + new job (F52)
             yield dict(backend=backend, queue=2, pop=1, workers=3, ops=[["submit", 1], ["close", 0], ["submit", 2]])
             yield dict(backend=backend, queue=3, pop=2, workers=1, ops=[["submit", 3], ["fail", 0], ["finish", 0]])
             yield dict(backend=backend, queue=2, pop=1, workers=1, ops=[["submit", 1], ["submit", 1], ["finish", 0]])  # the pool serialises the two submits
             yield dict(backend=backend, queue=2, pop=1, workers=1, ops=[["submit", 1], ["close", 0], ["submit", 1], ["close", 0], ["submit", 1]])
+            yield dict(backend=backend, queue=3, qspec=[["i", 1], ["i", 1], ["f", 1.0]], pop=1, workers=2, ops=[["submit", 2], ["finish", 0], ["finish", 0], ["submit", 3]])
         n = count * (3 if tier == "search" else 1)
         for _ in range(n):
             pop = rng.choice([1, 1, 2, 2, 3])
@@ -525,6 +637,8 @@ def steps_gen(count, backend):
                 else:
                     ops.append(["finish", rng.randint(0, 5)])
             c = dict(backend=backend, queue=queue, pop=pop, workers=rng.randint(1, 3), ops=ops)
+            if rng.random() < 0.4:
+                c["qspec"] = _qspec(rng, queue)
             if ["close", 0] not in ops and rng.random() < 0.3:
                 c["timeout"] = True  # (with close() the shielded run-function of the serial backend is abandoned, never ends)
             yield c
@@ -542,11 +656,12 @@ def steps_shrink(case):
         if ops[i][0] == "fail":
             yield dict(case, ops=ops[:i] + [["finish", ops[i][1]]] + ops[i + 1:])
     if case["queue"] > max(1, case["pop"]):
-        yield dict(case, queue=case["queue"] - 1)
+        yield _smaller_queue(case)
     if case["workers"] > 1:
         yield dict(case, workers=case["workers"] - 1)
     if case["pop"] > 1 and case["pop"] <= case["queue"]:
         yield dict(case, pop=case["pop"] - 1)
+    yield from _simpler_resources(case)
 
 
 def streams(tier):
